@@ -42,6 +42,9 @@ def run(ctx, model_ok):
                             "the pinned scipy 1.18.1 (ValueError from Rotation.from_euler); the model follows the pinned behaviour (Entry.shape = none), the stream samples it",
                             "rotate_from_angax in IEEE double: a non-zero axis whose norm underflows to 0 (|axis| < ~1.5e-162) or a NaN angle/axis passes the validators, "
                             "gives NaN rotation vectors, raises scipy's ValueError and leaves NaN positions when an anchor is given (exact arithmetic: norm > 0 is proved)",
+                            "the common length of a history in closed form (history_common_length, `histLen`) is proved for trees whose members share one path length and histories whose "
+                            "descendant-addressed operations keep it (`AdmissibleAt`); for arbitrary trees only equal lengths >= 1 per object are proved (paths_equal_length_always), "
+                            "which is all the property claims there",
                             "floating-point rounding of rotation composition (oracle tolerance 1e-9)"]
     ctx.assumptions += ["scipy Rotation is a group acting on R^3; np.pad(edge)/slicing behave as edgePad/mapSlice"]
 
